@@ -85,22 +85,32 @@ def _selection_env(fx, it, scores, micro, log):
     return genv, tag_of
 
 
-def _selection_env_semantic(fx, it, scores, micro, log):
+def _selection_env_semantic(fx, it, scores, micro, log, v=None):
     """The same observations without relying on `apply_mask` being the masking primitive: the repository's own masking runs on a
     symbol whose data modules all hold the placeholder, and *which* pattern a matrix carries is read off the matrix itself (the
     set of flipped data modules is compared with the ISO patterns of the symbol kind).  Used when the mask stage was rewritten
     so that it no longer calls apply_mask."""
-    v = -3 if micro else 1
+    v = (-3 if micro else 1) if v is None else v
     cells = iso.placement(v)
+    n_ = iso.size_of(v)
+    cellset = set(cells)
+    original = {}
     pats = [iso.MASKS[iso.MICRO_MASKS[k]] for k in range(4)] if micro else list(iso.MASKS)
     want = [frozenset(rc for rc in cells if p_(*rc)) for p_ in pats]
+
+    def remember(m):
+        original.clear()
+        original.update({(r, c): m[r][c] for r in range(n_) for c in range(n_) if (r, c) not in cellset})
 
     def tag_of(m):
         try:
             flipped = frozenset((r, c) for r, c in cells if m[r][c] != 2)
             odd = [(r, c) for r, c in cells if m[r][c] not in (2, 3)]
+            touched = [rc for rc, val in original.items() if m[rc[0]][rc[1]] != val]
         except (TypeError, IndexError):
             return None
+        if touched:
+            return ('masked', None, (f'{len(touched)} function-pattern module(s) changed, e.g. {touched[0]}',))
         if odd:
             return ('masked', None, ('not a mask of the placeholder symbol',))
         if not flipped:
@@ -115,20 +125,22 @@ def _selection_env_semantic(fx, it, scores, micro, log):
             raise Unknown('a candidate was evaluated unmasked or masked twice')
         return scores[t[1]]
     genv = encoder_env(fx.forest, it, evaluate_mask=evaluate, evaluate_micro_mask=evaluate, **reg.model_env())
+    tag_of.remember = remember
     return genv, tag_of
 
 
-def _run_selection(fx, it, scores, micro, requested='<none>'):
+def _run_selection(fx, it, scores, micro, requested='<none>', v=None):
     """find_and_apply_best_mask on a fresh symbol of the kind: (result, tag_of, log, cell (0, 0) of the input, semantic?)."""
     fn = fx.fn('encoder', 'find_and_apply_best_mask')
-    n = 11 if micro else 21
-    for semantic in (False, True):
+    n = (11 if micro else 21) if v is None else iso.size_of(v)
+    for semantic in ((False, True) if v is None else (True,)):
         log = []
-        genv, tag_of = (_selection_env_semantic if semantic else _selection_env)(fx, it, scores, micro, log)
+        genv, tag_of = _selection_env_semantic(fx, it, scores, micro, log, v) if semantic else _selection_env(fx, it, scores, micro, log)
         m = genv['make_matrix'](n, n)
         if semantic:
             genv['add_finder_patterns'](m, n, n)
             genv['add_alignment_patterns'](m, n, n)
+            tag_of.remember(m)
         c0 = m.grid()[0][0]
         try:
             res = FuncVal(fn, genv, it)(m, n, n) if requested == '<none>' else FuncVal(fn, genv, it)(m, n, n, requested)
@@ -254,7 +266,27 @@ def r5(fx):
     ffn = fx.fn('encoder', 'find_and_apply_best_mask')
     for v in sizes:
         n = iso.size_of(v)
-        reg_f = _region_closure(fx, it, n)
+        try:
+            reg_f = _region_closure(fx, it, n)
+        except Unknown as u:
+            if 'apply_mask was not called' not in str(u):
+                raise
+            # The mask stage does not go through apply_mask.  Every module of the encoding region is flipped by at least one of
+            # the patterns (checked here for this size); with each pattern requested in turn the stage must flip exactly the
+            # modules of the ISO encoding region where the pattern holds and leave every function-pattern module alone.
+            micro = v < 1
+            pats = [iso.MASKS[iso.MICRO_MASKS[k]] for k in range(4)] if micro else list(iso.MASKS)
+            uncovered = [rc for rc in iso.placement(v) if not any(p_(*rc) for p_ in pats)]
+            why = f'{len(uncovered)} module(s) no pattern flips' if uncovered else ''
+            for k in range(len(pats)):
+                if why:
+                    break
+                res, tag_of, log, c0, _sem = _run_selection(fx, it, [0] * 8, micro, requested=k, v=v)
+                t = tag_of(res[1]) if isinstance(res, tuple) and len(res) == 2 and res[1] is not None else None
+                if t is None or t[1] != k:
+                    why = f'pattern {k} requested: {t[2][0] if t and t[1] is None else "the result does not carry pattern " + str(k)}'
+            yield ob(f'v{v}: encoding region = complement of function patterns ({n * n} cells)', not why, ffn, got=why or 'every pattern flips exactly its modules of the region', want='')
+            continue
         lay = iso.layout(v)
         bad = []
         for i in range(n):
